@@ -53,25 +53,28 @@ def finish(res, tier, seed, t0, proof):
         cov["notes"] = res.notes
     rc = 0
     lines = []
-    if not ok_proof:
-        replay = C.write_replay(pid, {"property": pid, "kind": "proof-obligation",
-                                      "theorem_file": "coq/Props/%s.v" % pid,
-                                      "coq_output": assumptions_out[-3000:]})
-        res.violations.append(("proof obligations of %s no longer check" % pid, None, False))
-        lines.append("VIOLATION property=%s replay=%s no-failing-input-found" % (pid, replay))
-        rc = 1
-    if forbidden:
-        replay = C.write_replay(pid, {"property": pid, "kind": "forbidden-construct", "where": forbidden})
-        lines.append("VIOLATION property=%s replay=%s no-failing-input-found" % (pid, replay))
-        rc = 1
-    # concrete violations first; correspondence-only ones carry no-failing-input-found
-    nviol = len([1 for v in res.violations if v[1] is not None])
-    for what, replay_obj, found in res.violations[:10]:
-        if replay_obj is None:
-            continue
+    # concrete failing inputs first
+    concrete = [v for v in res.violations if v[1] is not None and v[2]]
+    others = [v for v in res.violations if v[1] is not None and not v[2]]
+    nviol = len(concrete) + len(others)
+    for what, replay_obj, found in (concrete + others)[:10]:
         replay_obj = dict(replay_obj, property=pid, what=what, seed=seed, tier=tier)
         path = C.write_replay(pid, replay_obj)
         lines.append("VIOLATION property=%s replay=%s%s" % (pid, path, "" if found else " no-failing-input-found"))
+        rc = 1
+    if not ok_proof:
+        replay = C.write_replay(pid, {"property": pid, "kind": "proof-obligation",
+                                      "what": "the theorems of coq/Props/%s.v no longer check" % pid,
+                                      "theorem_file": "coq/Props/%s.v" % pid,
+                                      "coq_output": assumptions_out[-3000:],
+                                      "failing_input_found_by_search": bool(concrete)})
+        lines.append("VIOLATION property=%s replay=%s%s" % (pid, replay, "" if concrete else " no-failing-input-found"))
+        nviol += 1
+        rc = 1
+    if forbidden:
+        replay = C.write_replay(pid, {"property": pid, "kind": "forbidden-construct", "what": "forbidden construct in the development", "where": forbidden})
+        lines.append("VIOLATION property=%s replay=%s no-failing-input-found" % (pid, replay))
+        nviol += 1
         rc = 1
     for k in res.known:
         print("KNOWN-FINDING: property=%s %s" % (pid, k))
@@ -99,7 +102,7 @@ def main():
         print("unknown property", pid); return 2
     with C.BuildLock():
         ok_coq, coq_log = C.build_coq()
-        ok_model, model_log = C.build_model() if ok_coq else (False, "coq build failed")
+        ok_model, model_log = C.build_model()      # the model must still run when a proof breaks
         ok_impl, impl_log = C.build_impl()
         forbidden = C.scan_forbidden()
     if not ok_impl:
@@ -108,10 +111,10 @@ def main():
         res.violation("the harness no longer builds against /repo (API the property is stated over changed?)",
                       {"kind": "build", "log": impl_log[-3000:]}, found_input=False)
         return finish(res, tier, seed, t0, (True, [], "", []))
-    if ok_coq:
-        ok_props, theorems, assumptions = C.check_props_file(pid)
-    else:
-        ok_props, theorems, assumptions = False, [], coq_log[-3000:]
+    ok_props, theorems, assumptions = C.check_props_file(pid)
+    if not ok_coq and ok_props:
+        # some other file of the development fails: this property's own theorems still check
+        pass
     res = Result(pid)
     if not ok_model:
         res.violation("model does not build/extract", {"kind": "build", "log": model_log[-3000:]}, False)
@@ -121,7 +124,7 @@ def main():
         except Exception:
             traceback.print_exc()
             res.violation("check crashed", {"kind": "crash", "trace": traceback.format_exc()[-3000:]}, False)
-    return finish(res, tier, seed, t0, (ok_coq and ok_props, theorems, assumptions, forbidden))
+    return finish(res, tier, seed, t0, (ok_props, theorems, assumptions, forbidden))
 
 if __name__ == "__main__":
     sys.exit(main())
